@@ -691,7 +691,7 @@ func c08Cases(c *mon.Ctx) []*c08Case {
 func init() {
 	register(&mon.CheckSpec{
 		ID: "C08", Level: "fault_enumeration",
-		Rule: "cases = fault plans against a simulated kernel behind AuditClient.Netlink: op in {GetStatus, GetRules(0/1/3 rules), AddRule, DeleteRule, DeleteRules(0/1/3), the seven Set* in WaitForReply mode} x errno on the ACK in {0, EPERM, ENOENT, EEXIST, EINVAL, ENOMEM, EBUSY, 4095} (for DeleteRules: on the list request or on the i-th delete) x, at each datagram position in turn, every combination of 0-2 unsolicited sequence-0 events and a transient receive-failure burst in {none, 1xEINTR, 9xEINTR, 1xEAGAIN, 9 mixed} before the datagram, and additionally a 9-failure burst before EACH unsolicited event (failures on both sides of an event, each run <= 9); adversarial reply streams (ACK with a stale / future / random foreign sequence, ACK of a non-ERROR type, NLMSG_DONE as ACK, short ACK payload, stream ending early, data reply of the wrong type or with a foreign sequence); plus seeded random plans with faults at every datagram and request sequences near 1 and near 2^32. After each operation a further GetStatus overwrites the one reused receive buffer and must itself succeed with its own data. Finally, over a REAL NETLINK_USERSOCK socket (unicast and group 1): ten commands x 3 whose only answer is a well-formed ACK (errno 0, right sequence number) sent by another user-space socket - none may return nil. distinct_nontrivial = distinct plans with at least one fault (errno, unsolicited event, transient failure or adversarial stream).",
+		Rule: "cases = fault plans against a simulated kernel behind AuditClient.Netlink: op in {GetStatus, GetRules(0/1/3 rules), AddRule, DeleteRule, DeleteRules(0/1/3), the seven Set* in WaitForReply mode} x errno on the ACK in {0, EPERM, ENOENT, EEXIST, EINVAL, ENOMEM, EBUSY, 4095} (for DeleteRules: on the list request or on the i-th delete) x, at each datagram position in turn, every combination of 0-2 unsolicited sequence-0 events and a transient receive-failure burst in {none, 1xEINTR, 9xEINTR, 1xEAGAIN, 9 mixed} before the datagram, and additionally a 9-failure burst before EACH unsolicited event (failures on both sides of an event, each run <= 9); adversarial reply streams (ACK with a stale / future / random foreign sequence, ACK of a non-ERROR type, NLMSG_DONE as ACK, short ACK payload, stream ending early, data reply of the wrong type or with a foreign sequence); plus seeded random plans with faults at every datagram and request sequences near 1 and near 2^32. After each operation a further GetStatus overwrites the one reused receive buffer and must itself succeed with its own data. Finally, over a REAL NETLINK_USERSOCK socket (unicast and group 1): ten commands x 3 whose only answer is a well-formed ACK (errno 0, right sequence number) sent by another user-space socket - none may return nil. And ten commands repeated identically on one client (first acknowledged with 0, then refused with EPERM / EEXIST / ENOENT / EINVAL): every call reaches the kernel and reports its own verdict. distinct_nontrivial = distinct plans with at least one fault (errno, unsolicited event, transient failure or adversarial stream).",
 		Assumptions: []string{
 			"the simulated kernel follows the real kernel's script: ACK (NLMSG_ERROR with errno and echoed header) first, then the AUDIT_GET reply or LIST_RULES x n + NLMSG_DONE, nothing after a refused request",
 			"request sequence number 0 (wrap-around) is generated only in plans without unsolicited events; combined with unsolicited events a reply and an event are indistinguishable by sequence, so that combination is not asserted",
@@ -741,6 +741,7 @@ func init() {
 				}
 			})
 			c08ForgedAcks(c)
+			c08RepeatedCommands(c)
 			c.Require("cases_expect_success", 50)
 			c.Require("cases_expect_errno", 50)
 			c.Require("cases_adversarial", 25)
